@@ -121,18 +121,20 @@ void MEDDLY::unary_operation::compute(const dd_edge &arg, dd_edge &res)
 #ifdef ALLOW_OLD_UNARY_0_17_6
     if (new_style) {
         node_handle resp;
+        edge_value resv;
         compute(resF->getMaxLevelIndex(), ~0,
                 arg.getEdgeValue(), arg.getNode(),
-                res.setEdgeValue(), resp);
-        res.set(resp);
+                resv, resp);
+        res.set(resv, resp);
     } else {
         computeDDEdge(arg, res, true);
     }
 #else
     node_handle resp;
+    edge_value resv;
     compute(resF->getMaxLevelIndex(), ~0,
-            arg.getEdgeValue(), arg.getNode(), res.setEdgeValue(), resp);
-    res.set(resp);
+            arg.getEdgeValue(), arg.getNode(), resv, resp);
+    res.set(resv, resp);
 #endif
 #ifdef DEVELOPMENT_CODE
     resF->validateIncounts(true, __FILE__, __LINE__, getName());
@@ -153,10 +155,11 @@ void MEDDLY::unary_operation::computeTemp(const dd_edge &arg, dd_edge &res)
     } else {
         computeDDEdge(arg, res, false);
         node_handle resp;
+        edge_value resv;
         compute(argF->getMaxLevelIndex(), ~0,
                 arg.getEdgeValue(), arg.getNode(),
-                res.setEdgeValue(), resp);
-        res.set(resp);
+                resv, resp);
+        res.set(resv, resp);
     }
 }
 
